@@ -92,5 +92,33 @@ def run(chk, replay=None):
                 rc, so = dec(ct, other); chk.count()
                 if rc == 0: chk.violate('decrypt with a different key succeeded', {'plaintext': s[:60]}, tags=['wrongkey'])
             chk.streams.append({'stream': 'redact --encrypt -> decrypt through the CLI', 'key': ki, 'strings': len(sub), 'corruptions': len(bad)})
+    # the same round trip when the input comes from Atlas (the other input channel of `redact --encrypt`)
+    from vlib import atlaslib, streamlib
+    secrets = ['AtlasSecret Zq77qZ', 'héllo wörld 中', '']
+    alines = [json.dumps({'t': {'$date': '2020-01-01T00:00:00.000+00:00'}, 's': 'I', 'c': 'COMMAND', 'id': 1, 'ctx': 'c', 'msg': 'Slow query', 'attr': {'ns': 'd.c', 'command': {'find': 'c', 'filter': {'f': s}}}}, ensure_ascii=False).encode() for s in secrets]
+    hosts = ['h0.ex.net:27017', 'h1.ex.net:27017']
+    world = {'challenge': 'digest', 'cluster_st': 200, 'cluster_body': json.dumps({'connectionStrings': {'standard': atlaslib.conn_string(hosts)}}),
+             'hosts': [{'status': 200, 'body': base64.b64encode(streamlib.gz_bytes(b'\n'.join(alines) + b'\n')).decode(), 'cut': -1} for _ in hosts]}
+    r = atlaslib.run_cli(world, flags=['--encrypt'])
+    chk.count(); chk.traces += 1
+    case = {'channel': 'atlas', 'rc': r['rc'], 'files': sorted(r['outs']), 'stderr': r['stderr'].decode('utf-8', 'replace')[-200:]}
+    keyb = r['outs'].get('anonymongo.enc.key')
+    if r['rc'] != 0 or keyb is None or 'out.log.0' not in r['outs']:
+        chk.violate('redact --encrypt in Atlas mode did not produce ciphertext output and a key file', case, tags=['atlas'])
+    else:
+        with tempfile.TemporaryDirectory() as d:
+            kf = os.path.join(d, 'k.key'); open(kf, 'wb').write(keyb)
+            for i in (0, 1):
+                outl = r['outs']['out.log.%d' % i].split(b'\n')[:-1]
+                for s, ol in zip(secrets, outl):
+                    chk.count(); chk.nontriv(('atlas', i, s))
+                    try: ct = json.loads(ol)['attr']['command']['filter']['f']
+                    except Exception: ct = None
+                    p = subprocess.run([CLI, 'decrypt', '--decryptionKeyFile', kf, '--', ct or 'x'], stdin=subprocess.DEVNULL, capture_output=True)
+                    marker = b'Raw value: '
+                    got = p.stdout[p.stdout.find(marker) + len(marker):-1] if marker in p.stdout else None
+                    if ct is None or ct == s and s != '' or p.returncode != 0 or got != s.encode('utf-8'):
+                        chk.violate('Atlas input: the emitted value does not decrypt to the original', dict(case, plaintext=s, emitted=str(ct)[:80], got=(got or b'').decode('utf-8', 'replace')[:80]), tags=['atlas', 'roundtrip'])
+    chk.streams.append({'stream': 'redact --encrypt with Atlas input -> decrypt', 'hosts': 2, 'strings': len(secrets)})
     chk.sample({'plaintext': strings[4], 'slots': 'filter / $set array / inserted document / $match.$in'}); chk.sample({'plaintext': strings[0], 'note': 'empty string'})
     chk.assumptions += ["dec k (enc k m) = Some m and authenticity are assumptions about Tink's AES-SIV (premises of the theorems), not proved; the CLI stream exercises the real primitive"]
